@@ -62,12 +62,12 @@ CLAIMED.update({
               "the codec. RLE decoder equals a reference decoder (C08). The sparse codec itself - real encoder into real decoder - is "
               "decided on a derived copy of sparse.rs (Vec<u8> replaced by a bounded-array model, regenerated from the sources on every run): "
               "decompress(compress(x), len) == x, header == length, stored form within the encoder's own worst-case bound, for EVERY input of "
-              "1..=5 bytes (8 thorough)."),
+              "1..=5 bytes (7 thorough)."),
         design_ref="DESIGN.md sections 0.8 and 4, C03",
         note=("Trusted: the codec abstraction. Known finding KF-C03-ratio (fixed 1000:1 ratio test rejects the library's own output, e.g. zlib of "
               "2 MiB zeros) is excluded by assumption and witnessed. Trusted for the sparse codec: the bounded-array model of Vec<u8> "
               "(harness/env/bvec.rs; the function bodies are the repository's text). Outside: round trips through the real "
-              "zlib/bzip2/LZMA/PKWare/Huffman codecs (external crates or table-driven loops that exceed CBMC's reach), sparse inputs of more than 8 "
+              "zlib/bzip2/LZMA/PKWare/Huffman codecs (external crates or table-driven loops that exceed CBMC's reach), sparse inputs of more than 7 "
               "bytes (incl. the 0x80/0x81/0x82 literal-run markers), ADPCM length/interleave beyond decoder totality."),
     ),
     "C05": dict(
